@@ -301,6 +301,14 @@ class World(object):
                 raise _realsocket.error('not ipv6')
         self._saved = [(cs, 'time', cs.time), (cs, 'select', cs.select), (cs, 'socket', cs.socket),
                        (tr, 'time', tr.time), (rf, 'time', rf.time), (serial, 'Serial', serial.Serial)]
+        if self.scheduler is not None:
+            from vlib import sched
+            lock_class = sched.make_lock_class(lambda: world.scheduler)
+            self._saved.append((tr, 'RLock', tr.RLock))
+            tr.RLock = lock_class
+            if hasattr(cs, 'RLock'):
+                self._saved.append((cs, 'RLock', cs.RLock))
+                cs.RLock = lock_class
         cs.time = faketime
         cs.select = fakeselect
         cs.socket = FakeSocketModule
